@@ -4,7 +4,7 @@
 From Coq Require Import List NArith Bool String Lia.
 From Verif Require Import Lib.Bytes Sni.Wire Sni.WireProofs Sni.WireGen Gen.WireSchema.
 From Verif Require Import Sni.Hello Sni.Stream Sni.StreamClose Sni.ReadBuf Sni.ReadBufProofs
-  Sni.ReadHold Sni.ReadHoldProofs Sni.PendingAge Sni.PendingAgeProofs
+  Sni.ReadHold Sni.ReadHoldProofs Sni.PendingAge Sni.PendingAgeProofs Sni.TunnelCtx
   Gen.StreamConsts Gen.HelloConsts.
 Import ListNotations.
 Local Open Scope N_scope.
@@ -62,6 +62,22 @@ Local Open Scope string_scope.
     of the RPC path are the known ones: the 1 MiB cap of a read request.  A new
     bound - a window, a cap, a pool size - shows up here, and the streams size
     themselves along the emitted values. *)
+(** The context a tunnel keeps is its own (never done), and hostConn derives
+    no cancellable / timeout context. *)
+Lemma gen_tunnel_ctx_own : origin_of gen_tunnel_ctx_origin = Some CtxOwn /\ gen_hostconn_ctx_derivations = [].
+Proof. split; reflexivity. Qed.
+
+(** The durations written in the package are the known ones (accept timeout,
+    graceful close, side-connection dial, shutdown, close deadline): a new
+    bound in time shows up here, and the harness then keeps one connection per
+    mode idle for slightly longer than it. *)
+Definition known_sni_durations : list string :=
+  ["endpoint.go:10000"; "endpoint.go:5000"; "endpoint_client.go:3000"; "endpoint_server.go:5000";
+   "side_conn.go:3000"; "transport.go:3000"].
+
+Lemma gen_sni_durations_known : list_eqb String.eqb gen_sni_durations known_sni_durations = true.
+Proof. vm_compute. reflexivity. Qed.
+
 Definition known_rpc_int_literals : list string := ["endpoint_server.go:1048576"].
 
 Lemma gen_rpc_int_literals_known :
